@@ -184,7 +184,8 @@ def programs_for(tier, seed):
         if i % 3 == 0:
             lay = ["three", "one", "two", "deep"][(i // 3) % 4]
             form = gen.IMPORT_FORMS[(i // 3) % len(gen.IMPORT_FORMS)]
-            p = progs.base_program("c3b%d" % i, layout=lay, import_form=form, entry_data=(i % 2 == 0))
+            # every other skeleton with function-local imports (dds, and a top-level module nothing else imports)
+            p = progs.base_program("c3b%d" % i, layout=lay, import_form=form, entry_data=(i % 2 == 0), local=(i % 6 == 3))
             vid = gen.add_var(p, p["_ids"]["leaf"], "V3", list(gen.VAR_KINDS)[i % len(gen.VAR_KINDS)])
             p["order"][p["_ids"]["leaf"]].remove(("var", vid))
             p["order"][p["_ids"]["leaf"]].insert(0, ("var", vid))
